@@ -626,6 +626,33 @@ def run(ctx):
     ctx.rule('R4b', "every cell of VALID_BINOP_TYPES accepts the (left, right) call apply_binary_operation makes "
                     "(a cell that cannot be called that way turns an ordinary program into a TIFA system error)")
     binop_cells_callable(ctx, sym, 'R4b')
+    ctx.rule('R4c', "every result function of VALID_BINOP_TYPES, executed abstractly on model container operands (both "
+                    "with elements of unrelated types, left empty, right empty): a container result taken from a "
+                    "non-empty operand keeps an element type - a result whose element type is None makes the next "
+                    "operation on it fail inside the analysis")
+    from .c19 import extract_binop_table, executed_result
+    omod, _, table = extract_binop_table(ctx, sym)
+    seen_fns = set()
+    for op, rows in table.items():
+        for lcls, cols in (rows.items() if isinstance(rows, dict) else ()):
+            for rcls, cell in (cols.items() if isinstance(cols, dict) else ()):
+                name = str(cell)
+                if name in seen_fns or not name.isidentifier():
+                    continue
+                seen_fns.add(name)
+                r = sym.resolve_name(omod, name)
+                if not (isinstance(r, tuple) and r[0] == 'func'):
+                    continue
+                problems = []
+                res = executed_result(sym, r[1], r[2], problems)
+                if res is None:
+                    continue        # outside the fragment: R4b and C19.R1 still speak about this cell
+                ctx.analysed_function(r[1], r[2])
+                ctx.check(not problems, 'R4c', 'binop-result:%s:element-type' % name, r[1], r[2],
+                          "%s: %s" % (name, '; '.join(problems[:2])),
+                          "a = [1] + ['x']; a = a + [2.5] - TIFA fails with AttributeError: 'NoneType' object has no "
+                          "attribute ... and the program is reported as one TIFA could not analyse")
+    ctx.floor('R4c', 'result functions of the operator table', len(seen_fns), 5)
     r2_idempotent(ctx, sym)
     tifa_cache_offset_rule(ctx, sym, 'R2')
     r3_resolution(ctx, sym)
